@@ -2,6 +2,7 @@ package main
 
 import (
 	"fmt"
+	"reflect"
 
 	"github.com/esimov/gogu/cache"
 	"verif/core"
@@ -197,10 +198,11 @@ func (s *lruSys) Observe(c *seqmc.Ctx) {
 		c.Fail(n+"GetYoungest/wrong-entry", "GetYoungest = (%d,%q,%t), want (%d,%q,true); model %v", gk, gv, ok, e.K, e.V, s.model)
 	}
 	// structural: map and ring hold the same number of nodes
-	items := seqmc.Get(s.c, "items").Len()
-	ll := int(seqmc.Get(s.c, "evictList", "len").Int())
-	if items != ll {
-		c.Fail(n+"structure/map-and-list-disagree", "items map holds %d nodes, eviction list %d (model %v)", items, ll, s.model)
+	// (only while the private layout is the one this was written against: it is not part of the property)
+	if im, lv := seqmc.Get(s.c, "items"), seqmc.Get(s.c, "evictList", "len"); im.IsValid() && im.Kind() == reflect.Map && lv.IsValid() && lv.CanInt() {
+		if items, ll := im.Len(), int(lv.Int()); items != ll {
+			c.Fail(n+"structure/map-and-list-disagree", "items map holds %d nodes, eviction list %d (model %v)", items, ll, s.model)
+		}
 	}
 	if c.Copy == nil {
 		return
